@@ -66,6 +66,8 @@ func RunCLIScenario(args []string, horizon time.Duration, scenario f1testing.Sce
 		cmd.SilenceUsage = true
 		ctx, cancel := vctx.WithCancel(vctx.Background())
 		defer cancel()
+		CancelCurrentRun = cancel // scenario code may play the caller interrupting at a precise point
+		defer func() { CancelCurrentRun = func() {} }()
 		res.Err = cmd.ExecuteContext(ctx)
 	}, horizon, 0)
 	res.Status, res.Crash, res.Detail, res.Log = out.Status, out.Crash, out.Detail, out.Log
